@@ -14,4 +14,5 @@ def check(ctx, prog):
     model.rule_trigger_join(ctx, prog)
     engine.rule_flags_writers(ctx, prog, thorough=ctx.tier == "thorough")
     engine.rule_wakeup(ctx, prog)
+    engine.rule_queue_writers(ctx, prog, thorough=ctx.tier == "thorough")
     search.rule_solve_one(ctx, prog, want=("R-HANDOVER",))
